@@ -827,7 +827,7 @@ func (c *Client) Call(ctx context.Context, procedure string, options wamp.Dict, 
 		if err != nil {
 			if abortMsg != nil {
 				c.sess.Send() <- abortMsg
-				c.sess.Close()
+				c.sess.EndRecv(nil) // stop the client; Close() closes the peer
 			}
 
 			return nil, err
@@ -975,7 +975,7 @@ func (c *Client) CallProgressive(ctx context.Context, procedure string, sendProg
 		if err != nil {
 			if abortMsg != nil {
 				c.sess.Send() <- abortMsg
-				c.sess.Close()
+				c.sess.EndRecv(nil) // stop the client; Close() closes the peer
 			}
 
 			return nil, err
@@ -1867,7 +1867,7 @@ func (c *Client) runHandleInvocation(msg *wamp.Invocation) {
 						},
 					}
 					c.sess.Send() <- &abortMsg
-					c.sess.Close()
+					c.sess.EndRecv(nil) // stop the client; Close() closes the peer
 					return
 				}
 
